@@ -152,7 +152,7 @@ def fmtFull (r : SolveResult Float) (perm : Array Nat) : String :=
   s!"x={fmtFloats sol.x} s={fmtFloats sol.s} z={fmtFloats sol.z} " ++
   s!"obj={fmtOptF sol.obj_val} objd={fmtOptF sol.obj_val_dual} rp={fmtOptF sol.r_prim} rd={fmtOptF sol.r_dual} " ++
   s!"imu={fmtFloat r.S.st.infoMu} isig={fmtFloat r.S.st.infoSigma} istep={fmtFloat r.S.st.infoStepLength} " ++
-  s!"perm={fmtNats perm} prov={rb} rb={rb}"
+  s!"perm={fmtNats perm} prov={rb} rb={rb} nq={fmtOptF r.S.st.data.normq} nb={fmtOptF r.S.st.data.normb}"
 
 /-- bitwise equality of two float arrays (NaN = NaN) -/
 def bitsEq (a b : Array Float) : Bool :=
@@ -166,16 +166,30 @@ def optBitsEq (a b : Option Float) : Bool :=
   | some x, none => x.isNaN
   | none, some y => y.isNaN
 
-/-- second solve on the same object: its full record, the figures of the first solve and
-whether the two returned the same bits -/
-def fmtTwice (r1 r2 : SolveResult Float) (perm : Array Nat) : String :=
+/-- the norm caches before the first solve of `solve.twice` (request field `cm`): 0 as `new` left
+them, 1 both cleared, 2 / 3 one of them cleared, 4 both holding the stale values `cq`, `cb` -/
+def applyCm (S : Solver Float) (cm : Nat) (cq cb : Float) : Solver Float :=
+  let d := S.st.data
+  let d' : ProblemData Float := match cm with
+    | 1 => { d with normq := none, normb := none }
+    | 2 => { d with normq := none }
+    | 3 => { d with normb := none }
+    | 4 => { d with normq := some cq, normb := some cb }
+    | _ => d
+  { S with st := { S.st with data := d' } }
+
+/-- second solve on the same object: its full record, the figures of the first solve, whether the
+two returned the same bits, and the norm caches before / after the first solve -/
+def fmtTwice (S0 : Solver Float) (r1 r2 : SolveResult Float) (perm : Array Nat) : String :=
   let (a, b) := (r1.S.solution, r2.S.solution)
   let same := a.status.toNat == b.status.toNat && a.iterations == b.iterations && bitsEq a.x b.x
     && bitsEq a.s b.s && bitsEq a.z b.z && optBitsEq a.obj_val b.obj_val
     && optBitsEq a.obj_val_dual b.obj_val_dual && optBitsEq a.r_prim b.r_prim && optBitsEq a.r_dual b.r_dual
   fmtFull r2 perm ++
   s!" status1={a.status.toNat} iterations1={a.iterations} x1={fmtFloats a.x} s1={fmtFloats a.s} " ++
-  s!"z1={fmtFloats a.z} same={if same then 1 else 0}"
+  s!"z1={fmtFloats a.z} same={if same then 1 else 0} " ++
+  s!"nq0={fmtOptF S0.st.data.normq} nb0={fmtOptF S0.st.data.normb} " ++
+  s!"nq1={fmtOptF r1.S.st.data.normq} nb1={fmtOptF r1.S.st.data.normb}"
 
 def handle (ch : String) (kv : KV) : String :=
   match ch with
@@ -199,11 +213,16 @@ def handle (ch : String) (kv : KV) : String :=
     -- `solve()` twice on the same object: the record is the one of the second solve
     match parseRequest kv with
     | none => "bad-request"
-    | some r => fmtME (fun p => fmtTwice p.1 p.2 r.perm) (do
+    | some r =>
+      let cm := (kv.nat "cm").getD 0
+      let cq := (kv.float "cqv").getD 0
+      let cb := (kv.float "cbv").getD 0
+      fmtME (fun p => fmtTwice p.1 p.2.1 p.2.2 r.perm) (do
         let S ← Solver.new r.P r.q r.A r.b r.cones r.st r.perm
+        let S := applyCm S cm cq cb
         let r1 ← S.solve r.st
         let r2 ← r1.S.solve r.st
-        pure (r1, r2))
+        pure (S, r1, r2))
   | _ => "unknown-channel"
 
 end SolverDriver
